@@ -481,5 +481,52 @@ func extractC17() *lean {
 	l.def("introspectCalls", "List String", leanStrList(ic), ic)
 	ie := c17ErrConds(funcDecl(azF, "IntrospectAccessToken"))
 	l.def("introspectErrConds", "List String", leanStrList(ie), ie)
+	// ---- long-lived objects that verify tokens: what they hold. Anything that could remember a resolved key (map, cache, sync.Map,
+	// variables captured by a returned closure) must show up here.
+	structFields := func(f *ast.File, name string) []string {
+		var res []string
+		found := false
+		for _, d := range f.Decls {
+			if gd, ok := d.(*ast.GenDecl); ok && gd.Tok == token.TYPE {
+				for _, sp := range gd.Specs {
+					ts := sp.(*ast.TypeSpec)
+					if st, ok := ts.Type.(*ast.StructType); ok && ts.Name.Name == name {
+						found = true
+						for _, fl := range st.Fields.List {
+							for _, n := range fl.Names {
+								res = append(res, n.Name+" "+c17Src(fl.Type))
+							}
+						}
+					}
+				}
+			}
+		}
+		if !found {
+			return []string{"STRUCT-MISSING-" + name}
+		}
+		return res
+	}
+	jf := structFields(jarF, "jar")
+	l.def("jarFields", "List String", leanStrList(jf), jf)
+	sf := structFields(svF, "signatureVerifier")
+	l.def("signatureVerifierFields", "List String", leanStrList(sf), sf)
+	af := structFields(azF, "authzServer")
+	l.def("authzServerFields", "List String", leanStrList(af), af)
+	// NewTransactionSignatureVerifier returns a closure: variables declared in the constructor outside it are its state
+	var closureState []string
+	if fd := funcDecl(veF, "NewTransactionSignatureVerifier"); fd != nil {
+		for _, st := range fd.Body.List {
+			switch x := st.(type) {
+			case *ast.DeclStmt, *ast.AssignStmt:
+				closureState = append(closureState, c17Src(x))
+			case *ast.ReturnStmt:
+			default:
+				closureState = append(closureState, "stmt: "+c17Src(x))
+			}
+		}
+	} else {
+		closureState = []string{"FUNCTION-MISSING"}
+	}
+	l.def("dagVerifierClosureState", "List String", leanStrList(closureState), closureState)
 	return l
 }
